@@ -11,7 +11,7 @@ import math
 
 import numpy as np
 
-from vlib import gen, refmodel
+from vlib import gen, kernelx, refmodel
 from vlib.choice_rng import ChoiceModelError, explore
 
 TOL = 1e-9
@@ -136,6 +136,7 @@ def proposal_case(task):
 
                     def once(rng):
                         clear_proposal_dist_caches()
+                        kernelx.cold_array_caches()
                         _k, pr = get_prop(rng)
                         t = pr.sample()
                         lq = float(pr.log_p(t))
@@ -212,6 +213,7 @@ def smc_case(task):
 
         def once(rng):
             clear_proposal_dist_caches()
+            kernelx.cold_array_caches()
             if task.get("warm_alpha"):
                 # call history: the same kernel first serves a pass under another concentration value, which is then
                 # changed in place without clearing any cache
